@@ -23,6 +23,9 @@ tracer goroutine: one trace at a time, `subscriber <- trace` | `pending`: the tr
   buffer; Subscribe/Unsubscribe/Send served only in `select` |   `subBuf` = capacity of `Subscribe()`'s channel
 `flow.Start`: `wg.Add(1)` … traces … `wg.Done()`             | environment choices `fire`, `startTrace`, `other`,
                                                              |   `birth`, `death` (the wait group as a counter)
+`activity.go harness.run`: a goroutine per activation that   | `spawnStray` (a live token entered an activity),
+  hands the answer to the token (`out <- rsp`) and THEN      |   `strayTrace`: a trace sent by a goroutine that is not
+  sends `ActiveBoundaryTrace{Start:false}` (fact `detached`) |   counted by the wait group, so it can follow the cease
 `WaitUntilComplete`: helper goroutine `Lock(); signal<-true; | `Wait.helper` (`wantLock`/`holding`/`done`), `Wait.sig`
   Unlock()`, caller `select { ctx.Done | <-signal }`         |   (buffered value, `sigCap`), `Wait.caller`
 
@@ -43,6 +46,9 @@ structure Params where
   sigCap : Nat
   /-- capacity of the channel `tracer.Subscribe()` makes -/
   subBuf : Nat
+  /-- `harness.run` announces the end of the boundary phase (`ActiveBoundaryTrace{Start:false}`) from its own goroutine
+  AFTER handing the answer to the token, so that trace is not ordered before the token's further traces -/
+  detached : Bool
   /-- number of start events of the process -/
   n : Nat
 deriving DecidableEq, Repr
@@ -53,6 +59,7 @@ def Params.monitorsPerStartAll (P : Params) : Nat := if P.perStart then P.n else
 inductive Trace
   | start   -- FlowTrace / TerminationTrace whose source is a start event
   | other   -- any other trace sent by a live token
+  | stray   -- a trace sent by a goroutine outside the wait group (`ActiveBoundaryTrace{Start:false}`)
   | cease   -- CeaseFlowTrace
 deriving DecidableEq, Repr
 
@@ -110,6 +117,7 @@ structure St where
   fired : Nat := 0         -- start events whose token exists (`wg.Add` done)
   sent : Nat := 0          -- start events whose Flow/TerminationTrace has been handed to the tracer
   wg : Nat := 0            -- flowWaitGroup counter
+  strays : Nat := 0        -- goroutines outside the wait group that still owe their trace
   mons : List Mon := []
   subs : List Nat := []    -- tracer's subscriber list (monitor indices), in list order
   pending : Option (Trace × List Nat) := none   -- broadcast in progress
@@ -121,13 +129,13 @@ deriving DecidableEq, Repr
 def init (P : Params) : St := { prog := program P }
 
 inductive Choice
-  | starter | mon (k : Nat) | deliver | helper (w : Nat) | recv (w : Nat)
-  | fire | startTrace | other | birth | death | call | expire (w : Nat)
+  | starter | mon (k : Nat) | deliver | helper (w : Nat) | recv (w : Nat) | strayTrace
+  | fire | startTrace | other | birth | death | spawnStray | call | expire (w : Nat)
 deriving DecidableEq, Repr
 
 /-- choices of the engine's own goroutines (everything but the token stream, new calls and context expiry) -/
 def Choice.internal : Choice → Bool
-  | .starter | .mon _ | .deliver | .helper _ | .recv _ => true
+  | .starter | .mon _ | .deliver | .helper _ | .recv _ | .strayTrace => true
   | _ => false
 
 def upd {α : Type} : List α → Nat → (α → α) → List α
@@ -247,6 +255,11 @@ def step (P : Params) (s : St) : Choice → St
   | .other =>
     if 0 < s.wg ∧ s.pending.isNone then { s with log := .other :: s.log, pending := mkPending .other s.subs } else s
   | .birth => if 0 < s.wg then { s with wg := s.wg + 1 } else s
+  | .spawnStray => if P.detached = true ∧ 0 < s.wg then { s with strays := s.strays + 1 } else s
+  | .strayTrace =>
+    if 0 < s.strays ∧ s.pending.isNone then
+      { s with strays := s.strays - 1, log := .stray :: s.log, pending := mkPending .stray s.subs }
+    else s
   | .death => if s.fired - s.sent < s.wg then { s with wg := s.wg - 1 } else s
 
 def run (P : Params) (s : St) (sched : List Choice) : St := sched.foldl (step P) s
@@ -274,8 +287,8 @@ def Finished (s : St) : Prop :=
 /-! ## Driver support: run the engine's own goroutines until nothing moves (bounded) -/
 
 def internalChoices (s : St) : List Choice :=
-  [.deliver, .starter] ++ (List.range s.mons.length).map .mon ++ (List.range s.waits.length).map .helper ++
-    (List.range s.waits.length).map .recv
+  [.deliver, .starter, .strayTrace] ++ (List.range s.mons.length).map .mon ++
+    (List.range s.waits.length).map .helper ++ (List.range s.waits.length).map .recv
 
 def settleRound (P : Params) (s : St) : St := (internalChoices s).foldl (step P) s
 
